@@ -34,12 +34,15 @@ func R(key string, op corev1.NodeSelectorOperator, vals ...string) Req {
 
 // PoolCfg tunes NodePool generation.
 type PoolCfg struct {
-	PTaint       float64
-	PRequirement float64
-	PCustomLabel float64
-	PLimits      float64
-	PMinValues   float64
-	NumericOps   bool // allow Gt/Lt/Gte/Lte on integer-valued keys
+	PTaint float64
+	// PStartupTaint: probability of a startup taint; when the pool also has a permanent taint, half of the startup taints
+	// share its KEY with a different effect (taints are identified by key + effect, validation accepts the pair)
+	PStartupTaint float64
+	PRequirement  float64
+	PCustomLabel  float64
+	PLimits       float64
+	PMinValues    float64
+	NumericOps    bool // allow Gt/Lt/Gte/Lte on integer-valued keys
 }
 
 func DefaultPoolCfg() PoolCfg {
@@ -131,6 +134,18 @@ func NodePool(rng *rand.Rand, name string, cfg PoolCfg) *v1.NodePool {
 	if rng.Float64() < cfg.PTaint {
 		eff := []corev1.TaintEffect{corev1.TaintEffectNoSchedule, corev1.TaintEffectNoExecute, corev1.TaintEffectPreferNoSchedule}[rng.Intn(3)]
 		np.Spec.Template.Spec.Taints = []corev1.Taint{{Key: "dedicated", Value: []string{"x", "y"}[rng.Intn(2)], Effect: eff}}
+	}
+	if cfg.PStartupTaint > 0 && rng.Float64() < cfg.PStartupTaint {
+		st := corev1.Taint{Key: "example.com/booting", Effect: corev1.TaintEffectNoSchedule}
+		if pt := np.Spec.Template.Spec.Taints; len(pt) > 0 && rng.Intn(2) == 0 {
+			for _, eff := range []corev1.TaintEffect{corev1.TaintEffectNoExecute, corev1.TaintEffectNoSchedule} {
+				if eff != pt[0].Effect {
+					st = corev1.Taint{Key: pt[0].Key, Value: "booting", Effect: eff}
+					break
+				}
+			}
+		}
+		np.Spec.Template.Spec.StartupTaints = []corev1.Taint{st}
 	}
 	MarkPoolReady(np)
 	return np
